@@ -1058,17 +1058,23 @@ func (d *DotGit) genObjectList() error {
 		return nil
 	}
 
-	d.objectMap = make(map[plumbing.Hash]struct{})
+	// Built aside and published only when the walk got through: a listing cut
+	// short by an I/O error must not be taken for the whole store by every
+	// later lookup.
+	objectMap := make(map[plumbing.Hash]struct{})
+	var objectList []plumbing.Hash
 	populate := func(h plumbing.Hash) error {
-		d.objectList = append(d.objectList, h)
-		d.objectMap[h] = struct{}{}
+		objectList = append(objectList, h)
+		objectMap[h] = struct{}{}
 
 		return nil
 	}
 	if err := d.forEachObjectHash(populate); err != nil {
 		return err
 	}
-	plumbing.HashesSort(d.objectList)
+	plumbing.HashesSort(objectList)
+	d.objectList = objectList
+	d.objectMap = objectMap
 	return nil
 }
 
